@@ -184,10 +184,34 @@ def _check_case(case):
                 if not any(msg in w for w in all_err_text):
                     out.fail('missing-trailer-message:%s' % e['level'], '%s error code %s: message %r not in the report' % (e['level'], e['code'], msg[:120]))
                     break
-            if e['level'] in ('seg', 'ele'):
+            i = None
+            if e['level'] in ('st-ele', 'gs-ele', 'isa-ele'):
+                # an element error on a header or trailer is an element-level error of that segment: the message names the
+                # element (SE01, GE02, ...), the error tree the interchange / group / set
+                mm_ = re.search(r'\((ISA|IEA|GS|GE|ST|SE)\d\d', msg)
+                if mm_ is None:
+                    continue
+                want_id = mm_.group(1)
+                ci = cg = ct = -1
+                for k_, s_ in enumerate(segs):
+                    if s_.id == 'ISA':
+                        ci += 1
+                        cg = ct = -1
+                    elif s_.id == 'GS':
+                        cg += 1
+                        ct = -1
+                    elif s_.id == 'ST':
+                        ct += 1
+                    if s_.id == want_id and ci == e['isa'] and (e['gs'] is None or cg == e['gs']) and (e['st'] is None or ct == e['st']):
+                        i = k_
+                        break
+                if i is None:
+                    continue
+            elif e['level'] in ('seg', 'ele'):
                 i = ordinal.get((e['isa'], e['gs'], e['st'], e['pos']))
                 if i is None:
                     continue
+            if i is not None:
                 lo = idx[i - 1] if i > 0 else -1
                 hi = idx[i + 1] if i + 1 < len(idx) else len(p.items)
                 # window: from the previous segment line to the next one
